@@ -33,6 +33,8 @@ open Wire Enum
     pfull <spin> <exact|null> <some|none> ; poly ; fixed → rows (PolyFixedVariableComposite.sample_poly, every branch; child =
                                                  ExactPolySolver or a sampler without rows)
     tinit <n> <byEnergy> <aggregate> ; rows    → `err` / `ok rows` (Truncate / PolyTruncate composite incl. `__init__`)
+    xsolve <spin> poly ; vars ; poly  /  xsolve <spin> bqm ; vars ; lin ; quad ; off → rows IN ORDER (`vars` = `list(problem.variables)`, the gray-code column order; each row printed by sorted label)
+                                                 (ExactPolySolver.sample_poly / ExactSolver.sample as coded: `exactRows`)
     poly   = `bias@l&l&l|…`   fixed/lin = `l=v,…`   quad = `u&v=b,…`   reds = `u&v&p,…` -/
 
 def sepBy (c : String) (s : String) : List String := if s = "" ∨ s = "-" then [] else s.splitOn c
@@ -260,6 +262,19 @@ def answer (line : String) : String :=
       | .ok out => "ok " ++ String.intercalate "|" (out.map fun r =>
           String.intercalate "." (r.vals.map showRat) ++ "@" ++ showRat r.energy ++ "@" ++ toString r.occ)
     | _, _ => "bad"
+  | ["xsolve", spin, kind] =>
+    let showOrdered (rs : List Row) : String := String.intercalate "|" (rs.map showRow)
+    match parseLabels (field parts 1) "," with
+    | some vars =>
+      if kind = "poly" then
+        match parsePoly (field parts 2) with
+        | some p => showOrdered (exactPolySolver (spin = "1") vars p)
+        | none => "bad"
+      else
+        match parseAssign (field parts 2), parseQuad (field parts 3), parseRat? (field parts 4) with
+        | some lin, some quad, some off => showOrdered (exactBqmSolver vars ⟨spin = "1", lin, quad, off⟩)
+        | _, _, _ => "bad"
+    | none => "bad"
   | _ => "bad-line"
 
 partial def loop (h : IO.FS.Stream) : IO Unit := do
